@@ -1,7 +1,9 @@
 SPECIFICATION Spec
 CONSTANTS MaxRecs = 2 MaxCalls = 3 MaxRuns = 2 CommitBeforeReturn = TRUE TolerantVersionRead = TRUE
           AtomicUpgrade = TRUE Legacy = FALSE MaxBatches = 2 GateResetOnError = TRUE ReloadWait = 0 MaxDepth = 2 EnterKeepsPending = TRUE ParentFirst = TRUE
+CONSTANTS MaxVers = 1 TokenConflict = "ignore" MaxFaults = 0 CommitErrorRaises = TRUE
 INVARIANT TypeOK
+INVARIANT AckedUnchanged
 INVARIANT AckedDurable
 INVARIANT NoPartialRecord
 INVARIANT ReopenOk
